@@ -57,11 +57,13 @@ def gen(seed, tier, extra=None):
              'n_funcs': rng.choice([0, 1, 2]), 'max_loop': 2, 'fetch_probes': rng.random() < 0.7,
              'func_includes': rng.random() < 0.3, 'p_broken': rng.choice([0.0, 0.0, 0.1]),
              'fetch_faults': rng.choice([0, 0, 1, 2]), 'early_return': rng.choice([0.05, 0.2]),
-             'p_include': rng.choice([0.15, 0.3, 0.5]), 'self_include': rng.choice([0.0, 0.15, 0.3])}
+             'p_include': rng.choice([0.15, 0.3, 0.5]), 'self_include': rng.choice([0.0, 0.15, 0.3]),
+             'odd_names': rng.choice([0.0, 0.0, 0.3])}
     g = gen_exec.ExecGen(rng, knobs)
     plan = g.gen_plan()
     plan['seed'] = seed
     plan['family'] = 'embed'
+    plan['main_from_text'] = rng.random() < 0.4    # the top-level script goes through the real parser too
     return plan
 
 
@@ -88,6 +90,16 @@ def run(plan, stats):
     if plan.get('family') == 'cli':
         return run_cli(plan, stats)
     viols = []
+    real_model = None
+    if plan.get('main_from_text'):
+        from bare_script import parse_script, BareScriptParserError
+        try:
+            real_model = parse_script(ir.render(plan['model']))
+        except BareScriptParserError:
+            stats.c['generated_program_rejected_by_the_parser'] += 1
+            return RunResult([], digest_of('invalid-main'))
+        plan = dict(plan)
+        plan['model'] = gen_exec.merge_includes(plan['model'])     # the parser merges adjacent include lines
     # baseline: same program, fetch faults off
     base_plan = plan
     if plan.get('fetch_faults'):
@@ -97,7 +109,7 @@ def run(plan, stats):
     if ref_b.error is not None and ref_b.error[0] in ('unsupported', 'cap'):
         stats.c['ref_unsupported'] += 1
         return RunResult([], digest_of(('unsupported',)))
-    real_b = run_real(base_plan, limit=0, sim_options=True, max_starts=20000)
+    real_b = run_real(base_plan, limit=0, sim_options=True, max_starts=20000, model=copy.deepcopy(real_model))
     stats.c['evaluations'] += 1
     dig = [real_b.summary()]
     diff = compare_outcomes(real_b, ref_b)
@@ -112,7 +124,7 @@ def run(plan, stats):
     account(plan, stats, real_b, [])
     if plan.get('fetch_faults'):
         ref_f = run_ref(plan, limit=0, cap=3000)
-        real_f = run_real(plan, limit=0, sim_options=True, max_starts=20000)
+        real_f = run_real(plan, limit=0, sim_options=True, max_starts=20000, model=copy.deepcopy(real_model))
         stats.c['evaluations'] += 1
         stats.faults.update(real_f.fired)
         dig.append(real_f.summary())
